@@ -47,6 +47,7 @@ var (
 	hbFleet   []*srvInfo // servers with a short heartbeat timeout
 	sshOpen   *srvInfo   // ssh gateway without authorized keys
 	sshKeyed  *srvInfo   // ssh gateway with authorized keys
+	sshLate   *srvInfo   // like sshKeyed; attacked before and after its first legitimate ssh login
 	stallSrv  *srvInfo   // tcpMux off, used only by the stall cases
 	skipFleet []*srvInfo // oidc, both scopes, the four combinations of skipIssuerCheck / skipExpiryCheck
 	all       []*srvInfo
@@ -108,12 +109,20 @@ func main() {
 		mk("tok-hb-wc-t3-nomux", "token", true, true, false, 3, false),
 		mk("oidc-hb-t3", "oidc", true, false, true, 3, false),
 	}
-	sshOpen = mk("ssh-open", "token", false, false, true, 0, false)
+	// ssh gateways; they are part of the attack lattice (the network listener of a server whose gateway was
+	// used legitimately must refuse exactly like any other). Scopes: with authorized keys both (the virtual
+	// client is exempt), without only HeartBeats (the gateway's virtual client does not sign work connections).
+	sshOpen = mk("ssh-open-hb", "token", true, false, true, 0, false)
 	sshOpen.SSHPort = pa.Get()
-	sshKeyed = mk("ssh-keyed", "token", false, false, true, 0, false)
+	sshKeyed = mk("ssh-keyed-hb-wc", "token", true, true, true, 0, false)
 	sshKeyed.SSHPort, sshKeyed.SSHKeys = pa.Get(), true
+	sshLate = mk("ssh-keyed-late-hb-wc", "token", true, true, true, 0, false) // first ssh login only after batch 1
+	sshLate.SSHPort, sshLate.SSHKeys = pa.Get(), true
+	fleet[1].Terse, fleet[6].Terse, sshOpen.Terse = true, true, true // tok-hb, oidc-hb
+	nReal := len(fleet)
+	fleet = append(fleet, sshOpen, sshKeyed, sshLate)
 	stallSrv = mk("tok-nomux-stall", "token", false, false, false, 0, false)
-	all = append(append(append([]*srvInfo{}, fleet...), hbFleet...), sshOpen, sshKeyed, stallSrv)
+	all = append(append(append([]*srvInfo{}, fleet...), hbFleet...), stallSrv)
 	for i := 0; i < 4; i++ {
 		s := mk(fmt.Sprintf("oidc-hb-wc-skipiss%v-skipexp%v", i&1 != 0, i&2 != 0), "oidc", true, true, true, 0, false)
 		s.SkipIss, s.SkipExp, s.NoInc = i&1 != 0, i&2 != 0, true
@@ -164,12 +173,17 @@ func main() {
 		}
 	}
 	// real frpc incumbents where both scopes are on (real clients sign heartbeats and work connections)
-	for _, s := range fleet {
+	for _, s := range fleet[:nReal] {
 		if s.HB && s.WC && s.Mux {
 			if err := startRealClient(s); err != nil {
 				fatal("real frpc on "+s.Name, err)
 			}
 		}
+	}
+	// history "legitimate ssh login first, attacks afterwards" on both gateway kinds
+	if run.OnlyCase < 0 {
+		sshLegitLogin(sshOpen, "setup")
+		sshLegitLogin(sshKeyed, "setup")
 	}
 	base := takeBaseline()
 
@@ -187,6 +201,10 @@ func main() {
 		}
 		tl := time.Now()
 		r := globalLedger(base, fmt.Sprintf("after batch %d", b+1), b == 0 || b == batches-1)
+		if b == 0 {
+			// history "attacks, legitimate ssh login, attacks again"
+			sshLegitLogin(sshLate, "late")
+		}
 		fmt.Fprintf(os.Stderr, "batch %d: cases %v, ledger %v\n", b+1, tl.Sub(tb).Round(time.Millisecond), time.Since(tl).Round(time.Millisecond))
 		if b == 0 {
 			warm = r
